@@ -252,5 +252,7 @@ pub fn luma_sizes() -> Vec<(usize, usize)> {
         }
     }
     v.extend([(64, 48), (66, 50), (320, 240), (63, 47), (128, 4), (4, 128)]);
+    // images without pixels
+    v.extend([(0, 0), (0, 1), (0, 2), (0, 5), (1, 0), (2, 0), (4, 0)]);
     v
 }
